@@ -90,6 +90,11 @@ def run(tier, seed):
                                               "--flushers", str(3 + i % 3), "--fails", str([3, 3, 3, 4][i % 4]), "--cache", str(i % 2),
                                               "--cpus", str([16, 8, 16, 4][i % 4])]))
 
+    for i in range(2 if tier == "quick" else 8):   # many concurrent flush() callers over 8 and 4 workers, healthy device
+        jobs.append(("crowd%d" % i, "conc", ["--mode", "storm", "--seed", str(rng.randrange(1 << 30)), "--rounds", "80",
+                                              "--flushers", str([12, 16][i % 2]), "--fails", "0", "--cache", "0",
+                                              "--cpus", str([16, 8][i % 2])]))
+
     def one(job):
         tag, sub, args = job
         d = os.path.join(shm, tag)
